@@ -84,6 +84,10 @@ type c16Head struct {
 	SrcErr  bool         `json:"srcErr"`
 	RunErr  bool         `json:"runErr"`
 	Results []c16HeadRes `json:"results"`
+	// observation points around this head (besides the final one after all heads):
+	MidAt int  `json:"midAt"` // k >= 1: Observation() is called while this head is being sampled, when the observer
+	//                           is inside its k-th Eligible call (k-1 results already staged, advance not yet run); 0: none
+	After bool `json:"after"` // Observation() is called at the quiescent point after this head
 }
 
 type c16Input struct {
@@ -129,11 +133,20 @@ type c16Impl struct {
 	Performed []c16Res `json:"performed"` // results handed to EncodeReport
 	EncCalled bool     `json:"encCalled"`
 	Seen      []c16Seen `json:"seen"` // IsPending answers in call order
-	// obs
-	Out    string `json:"out"` // observation bytes, hex
-	OutErr string `json:"outErr"`
-	OutDec c16Dec `json:"outDec"`
-	Setup  string `json:"setup,omitempty"` // harness-level problem (should stay empty)
+	// obs: one entry per Observation() call, in call order; the last one is the final call after all heads
+	Points []c16Point `json:"points"`
+	Setup  string     `json:"setup,omitempty"` // harness-level problem (should stay empty)
+}
+
+// c16Point is one Observation() call: N = number of heads completely processed before it
+// (phase "mid": head N is being sampled; "after"/"final": quiescent).
+type c16Point struct {
+	N      int       `json:"n"`
+	Phase  string    `json:"phase"`
+	Out    string    `json:"out"` // observation bytes, hex
+	OutErr string    `json:"outErr"`
+	OutDec c16Dec    `json:"outDec"`
+	Seen   []c16Seen `json:"seen"`
 }
 
 // ---------------------------------------------------------------- fakes
@@ -152,6 +165,17 @@ type c16Enc struct {
 	mu      sync.Mutex
 	encErr  bool
 	encoded [][]c16Result
+	// gate: the gateAt-th Eligible call (1-based, counted from arm) blocks until release is closed
+	gateAt  int
+	calls   int
+	reached bool
+	release chan struct{}
+}
+
+func (e *c16Enc) arm(at int) {
+	e.mu.Lock()
+	e.gateAt, e.calls, e.reached, e.release = at, 0, false, make(chan struct{})
+	e.mu.Unlock()
 }
 
 func (e *c16Enc) EncodeReport(rs []v2.UpkeepResult) ([]byte, error) {
@@ -184,6 +208,17 @@ func (e *c16Enc) KeysFromReport(b []byte) ([]v2.UpkeepKey, error) {
 }
 
 func (e *c16Enc) Eligible(r v2.UpkeepResult) (bool, error) {
+	e.mu.Lock()
+	e.calls++
+	hit := e.gateAt > 0 && e.calls == e.gateAt
+	rel := e.release
+	if hit {
+		e.reached = true
+	}
+	e.mu.Unlock()
+	if hit {
+		<-rel // the observer is now between prepareIdentifier calls and advance
+	}
 	x := r.(c16Result)
 	if x.EligErr {
 		return x.Eligible, errors.New("c16: eligibility failure")
@@ -411,7 +446,7 @@ func c16ToRes(rs []c16Result) []c16Res {
 
 // c16Run executes one case on a factory-built plugin inside the caller's synctest bubble.
 func c16Run(t *testing.T, in c16Input) (impl c16Impl) {
-	impl = c16Impl{Decoded: []c16Dec{}, Checked: []string{}, Answered: []c16Res{}, Performed: []c16Res{}, Seen: []c16Seen{}}
+	impl = c16Impl{Decoded: []c16Dec{}, Checked: []string{}, Answered: []c16Res{}, Performed: []c16Res{}, Seen: []c16Seen{}, Points: []c16Point{}}
 	node, err := c16NewNode(in)
 	if err != nil {
 		impl.Setup = "factory: " + err.Error()
@@ -439,7 +474,26 @@ func c16Run(t *testing.T, in c16Input) (impl c16Impl) {
 	node.cf.rec.take()
 
 	if in.Mode == "obs" {
-		for _, h := range in.Heads {
+		observe := func(n int, phase string) {
+			node.cf.rec.take()
+			p := c16Point{N: n, Phase: phase}
+			func() {
+				defer func() {
+					if r := recover(); r != nil {
+						p.OutErr = "panic"
+					}
+				}()
+				b, err := node.plugin.Observation(ctx, node.ts, nil)
+				if err != nil {
+					p.OutErr = "error"
+				}
+				p.Out = hx(b)
+				p.OutDec = c16Decode(b)
+			}()
+			p.Seen = append([]c16Seen{}, node.cf.rec.take()...)
+			impl.Points = append(impl.Points, p)
+		}
+		for i, h := range in.Heads {
 			node.src.mu.Lock()
 			node.src.n, node.src.err = h.Active, h.SrcErr
 			node.src.mu.Unlock()
@@ -454,18 +508,24 @@ func c16Run(t *testing.T, in c16Input) (impl c16Impl) {
 				}
 				return out, nil
 			})
+			node.enc.arm(h.MidAt)
 			node.heads.ch <- v2.BlockKey(h.Block)
-			synctest.Wait()
+			synctest.Wait() // head processed completely, or the observer is parked inside the gated Eligible call
+			node.enc.mu.Lock()
+			reached, rel := node.enc.reached, node.enc.release
+			node.enc.mu.Unlock()
+			if reached {
+				observe(i, "mid")
+				close(rel)
+				synctest.Wait()
+			}
+			node.enc.arm(0)
 			time.Sleep(37 * time.Millisecond)
+			if h.After {
+				observe(i+1, "after")
+			}
 		}
-		node.cf.rec.take()
-		b, err := node.plugin.Observation(ctx, node.ts, nil)
-		if err != nil {
-			impl.OutErr = "error"
-		}
-		impl.Out = hx(b)
-		impl.OutDec = c16Decode(b)
-		impl.Seen = append(impl.Seen, node.cf.rec.take()...)
+		observe(len(in.Heads), "final")
 		return impl
 	}
 
@@ -498,7 +558,19 @@ func c16Run(t *testing.T, in c16Input) (impl c16Impl) {
 		}
 		return out, nil
 	})
-	ok, rep, err := node.plugin.Report(ctx, node.ts, nil, attributed)
+	var (
+		ok       bool
+		rep      ocr2types.Report
+		panicked bool
+	)
+	func() {
+		defer func() {
+			if r := recover(); r != nil {
+				panicked = true // e.g. GetMedian: "unexpected not integer block value"
+			}
+		}()
+		ok, rep, err = node.plugin.Report(ctx, node.ts, nil, attributed)
+	}()
 	impl.Seen = append(impl.Seen, node.cf.rec.take()...)
 	node.run.mu.Lock()
 	calls := node.run.calls
@@ -522,6 +594,8 @@ func c16Run(t *testing.T, in c16Input) (impl c16Impl) {
 		impl.Performed = c16ToRes(enc[0])
 	}
 	switch {
+	case panicked:
+		impl.Status = "panic"
 	case err == nil && ok:
 		impl.Status = "report"
 		// the report bytes are the encoder's: exactly the performed keys
@@ -786,7 +860,80 @@ func c16GenCoord(r *Rng, ids []string, blocks []string, em *Emitter) c16Coord {
 	return c
 }
 
+// c16GenMover: a few valid observations with distinct neighbouring blocks plus decodable-but-INVALID ones
+// (bad / out-of-range / non-numeric block key, or a legal far-away block with a bad id) placed so that
+// counting them would move the median (or make GetMedian panic).
+func c16GenMover(r *Rng, em *Emitter) c16Input {
+	in := c16Input{Mode: "report", Cfg: c16GenCfg(r), Epoch: uint32(r.Intn(1000)), Round: uint8(r.Intn(256)), Digest: r.U64()}
+	base := 1000 + r.U64()%(1<<40)
+	nv := r.Range(1, 5)
+	pool := []string{c16Id(r), c16Id(r), c16Id(r)}
+	var raws [][]byte
+	var blocks []string
+	for i := 0; i < nv; i++ {
+		b := fmt.Sprintf("%d", base+uint64(i))
+		blocks = append(blocks, b)
+		ids := []string{pool[r.Intn(len(pool))]}
+		if r.Chance(15) {
+			ids = append(ids, pool[r.Intn(len(pool))], "77") // oversized but valid
+		}
+		raws = append(raws, c16RawObs(b, ids))
+	}
+	ni := r.Range(1, 3)
+	low := r.Bool() // all invalid ones on the same side, so that they would shift the median
+	for i := 0; i < ni; i++ {
+		id := pool[r.Intn(len(pool))]
+		bad := c16BadIds[r.Intn(len(c16BadIds))]
+		var raw []byte
+		switch r.Intn(8) {
+		case 0:
+			em.Hit("mover=legal-block-bad-id")
+			b := fmt.Sprintf("%d", base-uint64(r.Range(1, 900)))
+			if !low {
+				b = fmt.Sprintf("%d", base+uint64(r.Range(10, 900)))
+			}
+			raw = c16RawObs(b, []string{bad})
+		case 1:
+			em.Hit("mover=legal-block-bad-later-id")
+			b := "0"
+			if !low {
+				b = c16Max64
+			}
+			raw = c16RawObs(b, []string{id, bad})
+		case 2:
+			em.Hit("mover=block-2^64")
+			raw = c16RawObs(c16Over64, []string{id})
+		case 3:
+			em.Hit("mover=block-negative")
+			raw = c16RawObs(fmt.Sprintf("-%d", r.Range(0, 5)), []string{id})
+		case 4:
+			em.Hit("mover=block-noncanonical")
+			raw = c16RawObs([]string{"007", "+5", "00", fmt.Sprintf("0%d", base+5000)}[r.Intn(4)], []string{id})
+		case 5:
+			em.Hit("mover=block-not-a-number")
+			raw = c16RawObs([]string{"latest", "", "0x10", "1e3", " 12"}[r.Intn(5)], []string{id})
+		case 6:
+			em.Hit("mover=no-block")
+			raw = []byte([]string{"{}", `{"2":["Nw=="]}`, `{"1":"","2":[]}`}[r.Intn(3)])
+		default:
+			em.Hit("mover=huge-block")
+			raw = c16RawObs(strings.Repeat("9", r.Range(21, 60)), []string{id})
+		}
+		raws = append(raws, raw)
+	}
+	for _, i := range r.Perm(len(raws)) {
+		in.Obs = append(in.Obs, hx(raws[i]))
+	}
+	in.Coord = c16GenCoord(r, pool, blocks, em)
+	in.Script = c16GenScript(r, in.Cfg, em)
+	return in
+}
+
 func c16GenReport(r *Rng, em *Emitter) c16Input {
+	if r.Chance(20) {
+		em.Hit("report=median-mover")
+		return c16GenMover(r, em)
+	}
 	in := c16Input{Mode: "report", Cfg: c16GenCfg(r), Epoch: uint32(r.Intn(1000)), Round: uint8(r.Intn(256)), Digest: r.U64()}
 	n := []int{1, 2, 3, 4, 4, 5, 7, 7, 10, 13, 16, 31}[r.Intn(12)]
 	if r.Chance(2) {
@@ -913,7 +1060,88 @@ func c16GenReport(r *Rng, em *Emitter) c16Input {
 	return in
 }
 
+// c16GenObsShift: consecutive heads over one small pool of upkeeps whose eligible set shrinks, shifts or is
+// reordered from head to head; Observation() is called after each head and WHILE the next one is sampled.
+func c16GenObsShift(r *Rng, em *Emitter) c16Input {
+	in := c16Input{Mode: "obs", Cfg: c16GenCfg(r), Epoch: uint32(r.Intn(1000)), Round: uint8(r.Intn(256)), Digest: r.U64()}
+	np := r.Range(2, 5)
+	pool := make([]string, np)
+	for i := range pool {
+		pool[i] = c16Id(r)
+	}
+	nh := r.Range(2, 4)
+	base := r.U64() % (1 << 40)
+	prev := make([]bool, np) // eligibility at the previous head
+	for i := range prev {
+		prev[i] = r.Chance(60)
+	}
+	var blocks []string
+	for hi := 0; hi < nh; hi++ {
+		h := c16Head{Block: fmt.Sprintf("%d", base+uint64(hi)), Active: np, After: r.Chance(70)}
+		blocks = append(blocks, h.Block)
+		cur := make([]bool, np)
+		kind := r.Intn(4)
+		if hi == 0 {
+			kind = 3
+		}
+		switch kind {
+		case 0: // shrinking: some of the previously eligible upkeeps were performed
+			em.Hit("shift=shrink")
+			for i := range cur {
+				cur[i] = prev[i] && r.Chance(50)
+			}
+		case 1: // shifting: the previously eligible ones are done, others became eligible
+			em.Hit("shift=shift")
+			for i := range cur {
+				cur[i] = !prev[i]
+			}
+		case 2: // same set, results in another order
+			em.Hit("shift=reorder")
+			copy(cur, prev)
+		default:
+			copy(cur, prev)
+			if hi > 0 {
+				for i := range cur {
+					cur[i] = r.Chance(50)
+				}
+			}
+		}
+		order := r.Perm(np)
+		if r.Chance(40) { // eligible results first: the first staged id lands on slot 0 of the list in use
+			var a, b []int
+			for _, i := range order {
+				if cur[i] {
+					a = append(a, i)
+				} else {
+					b = append(b, i)
+				}
+			}
+			order = append(a, b...)
+		}
+		for _, i := range order {
+			h.Results = append(h.Results, c16HeadRes{Key: h.Block + "|" + pool[i], Eligible: cur[i]})
+		}
+		if hi > 0 && r.Chance(85) {
+			h.MidAt = r.Range(1, np+1) // np+1: beyond the last result, never reached
+			em.Hit("mid-observe")
+		}
+		if r.Chance(5) {
+			h.RunErr = true
+		}
+		in.Heads = append(in.Heads, h)
+		if !h.RunErr {
+			prev = cur
+		}
+	}
+	in.Coord = c16GenCoord(r, pool, blocks, em)
+	return in
+}
+
 func c16GenObs(r *Rng, em *Emitter) c16Input {
+	if r.Chance(50) {
+		em.Hit("obs=shifting-heads")
+		return c16GenObsShift(r, em)
+	}
 	in := c16Input{Mode: "obs", Cfg: c16GenCfg(r), Epoch: uint32(r.Intn(1000)), Round: uint8(r.Intn(256)), Digest: r.U64()}
 	nh := r.Range(0, 3)
 	em.Hit(fmt.Sprintf("heads=%d", nh))
@@ -957,6 +1185,11 @@ func c16GenObs(r *Rng, em *Emitter) c16Input {
 			ids = append(ids, id)
 			h.Results = append(h.Results, c16HeadRes{Key: key, Eligible: r.Chance(75), EligErr: r.Chance(8), DetailErr: r.Chance(6)})
 		}
+		if r.Chance(40) {
+			h.MidAt = r.Range(1, nr+1)
+			em.Hit("mid-observe")
+		}
+		h.After = r.Chance(40)
 		in.Heads = append(in.Heads, h)
 	}
 	in.Coord = c16GenCoord(r, ids, blocks, em)
@@ -1036,10 +1269,33 @@ func c16Edge() []c16Input {
 		Script: c16Script{Items: []c16Item{{Pos: 0, Eligible: true}, {Pos: 0, Eligible: true}}}})
 	out = append(out, c16Input{Mode: "report", Cfg: def, Coord: fake, Obs: []string{obs("1", "1")},
 		Script: c16Script{EncErr: true, Items: all(1, c16Item{Eligible: true, Gas: 1})}})
+	// decodable but invalid observations must not take part in the median (valid blocks 100,101[,102] -> 101)
+	one := c16Script{Items: all(1, c16Item{Eligible: true, Gas: 1})}
+	out = append(out, c16Input{Mode: "report", Cfg: def, Coord: fake, Script: one, Obs: []string{obs("100", "7"), obs("101", "7"), obs("-1", "7")}})
+	out = append(out, c16Input{Mode: "report", Cfg: def, Coord: fake, Script: one, Obs: []string{obs("100", "7"), obs("101", "7"), obs("5", "-1")}})
+	out = append(out, c16Input{Mode: "report", Cfg: def, Coord: fake, Script: one, Obs: []string{obs("100", "7"), obs("101", "7"), obs("102", "7"), obs(c16Over64, "7")}})
+	out = append(out, c16Input{Mode: "report", Cfg: def, Coord: fake, Script: one, Obs: []string{obs("100", "7"), obs("101", "7"), obs("102", "7"), hx([]byte("{}"))}})
+	out = append(out, c16Input{Mode: "report", Cfg: def, Coord: fake, Script: one, Obs: []string{obs("100", "7"), obs("101", "7"), obs("102", "7"), obs("latest", "7")}})
 	// observation side
 	hd := func(block string, rs ...c16HeadRes) c16Head { return c16Head{Block: block, Active: 3, Results: rs} }
 	el := func(key string) c16HeadRes { return c16HeadRes{Key: key, Eligible: true} }
 	out = append(out, c16Input{Mode: "obs", Cfg: def, Coord: fake}) // nothing sampled yet
+	// the eligible set shifts between two heads; Observation() while the second one is being sampled
+	for k := 1; k <= 4; k++ {
+		h1 := hd("100", el("100|1"), el("100|2"), c16HeadRes{Key: "100|3"})
+		h1.After = true
+		h2 := hd("101", el("101|3"), c16HeadRes{Key: "101|1"}, c16HeadRes{Key: "101|2"})
+		h2.MidAt, h2.After = k, true
+		out = append(out, c16Input{Mode: "obs", Cfg: def, Coord: fake, Heads: []c16Head{h1, h2}})
+	}
+	{
+		h1 := hd("100", el("100|1"))
+		h2 := hd("101", c16HeadRes{Key: "101|1"}, el("101|3"), el("101|4"))
+		h2.MidAt = 3
+		h3 := hd("102", el("102|1"), c16HeadRes{Key: "102|3"})
+		h3.MidAt = 2
+		out = append(out, c16Input{Mode: "obs", Cfg: def, Coord: fake, Heads: []c16Head{h1, h2, h3}})
+	}
 	out = append(out, c16Input{Mode: "obs", Cfg: def, Coord: c16Coord{Kind: "fake", PendIds: []string{"7"}},
 		Heads: []c16Head{hd("10", el("10|5")), hd("11", el("11|7"), c16HeadRes{Key: "11|8"}, el("11|"+c16Max256), c16HeadRes{Key: "11|9", Eligible: true, EligErr: true})}})
 	out = append(out, c16Input{Mode: "obs", Cfg: def, Coord: c16Coord{Kind: "real", Accepted: []string{"9|7"}},
